@@ -14,7 +14,7 @@ from symx.scalar import SymComplex, SymReal
 from .common import EPS, facts, far, far_c, lemma, re_im, simp, tensor_of, term_of
 
 PID = "C15"
-LEVEL = "other"
+LEVEL = "model_checking"
 CLAIM = (
     "Bounded symbolic verification: tf_pwa.breit_wigner, tf_pwa.formula and the registered particle models run unmodified on a "
     "symbolic tensorflow substitute with symbolic reals for m, m0, Gamma0, daughter masses, q, q0, d; for each L in the bound the "
